@@ -180,7 +180,7 @@ theorem append_inv {cfg : Cfg} (hf : Fixed cfg) (h h' : Handle) (r : Rec) (hw : 
     | true =>
       rw [htc] at ha; simp at ha
       subst ha
-      exact ⟨h.file, body, rfl, hle, hdec, htc, by simp⟩
+      exact ⟨h.file, body, rfl, hle, hdec, rfl, by simp⟩
     | false =>
       rw [htc] at ha; simp at ha
       cases hv : validPrefix cfg h.file with
